@@ -107,10 +107,6 @@ func malformedMessage(c *Conversation) {
 }
 
 func (v otrV3) verifyInstanceTags(c *Conversation, their, our uint32) error {
-	if c.theirInstanceTag == 0 {
-		c.theirInstanceTag = their
-	}
-
 	if our > 0 && our < minValidInstanceTag {
 		malformedMessage(c)
 		return errInvalidOTRMessage
@@ -119,6 +115,10 @@ func (v otrV3) verifyInstanceTags(c *Conversation, their, our uint32) error {
 	if their < minValidInstanceTag {
 		malformedMessage(c)
 		return errInvalidOTRMessage
+	}
+
+	if c.theirInstanceTag == 0 {
+		c.theirInstanceTag = their
 	}
 
 	if (our != 0 && c.ourInstanceTag != our) ||
